@@ -10,8 +10,9 @@ ASSUMPTIONS = [
     "trusted: clang 14 + ASan/UBSan, rapidcheck, the event layer (checked separately by C04/C05) for harness-owned cancel timers",
 ]
 SUBS = [
-    dict(name="read", fork=True, quick=dict(cases=1500, shards=6), thorough=dict(cases=25000, shards=6)),
-    dict(name="write", fork=True, quick=dict(cases=1500, shards=5), thorough=dict(cases=25000, shards=5)),
+    dict(name="read", fork=True, quick=dict(cases=1500, shards=4), thorough=dict(cases=25000, shards=4)),
+    dict(name="write", fork=True, quick=dict(cases=1500, shards=4), thorough=dict(cases=25000, shards=4)),
+    dict(name="duplex", fork=True, quick=dict(cases=1500, shards=3), thorough=dict(cases=25000, shards=3)),
     dict(name="connect", fork=True, quick=dict(cases=1500, shards=3), thorough=dict(cases=25000, shards=3)),
     dict(name="accept", fork=True, quick=dict(cases=1500, shards=2), thorough=dict(cases=25000, shards=2)),
 ]
